@@ -14,6 +14,7 @@ CLAUSES = {
     1703: "the session raised instead of replying",
     1704: "harness: member list changed (no call table entry)",
     1705: "the command never replied although the direct call completed (or vice versa)",
+    1706: "the argument conversion wrapper did not behave like a fresh cls(arg) call (value, freshness, SUPPRESS pass-through or error mapping)",
     77: "reachability twin",
 }
 FUNCTIONS = ["ControlSession._exec_method_and_respond", "ControlSession._exec_property_and_respond", "helpers.return_or_exception"]
@@ -181,6 +182,75 @@ def tpl_cmd(cls, m, k, i1, i2, i3, flag, g, n, setv, _twin=False):
         w.close(code)
 
 
+CONV_ARGS = ("[1, 2]", "7", "[]", "{'a': [1]}")
+
+
+def tpl_conv(x1, a1, x2, a2, x3, a3, x4, a4, _twin=False):
+    """Converted arguments: the wrappers argparse calls (`type=`) must behave like a fresh cls(arg) on every call.
+    Steps: 0 convert CONV_ARGS[a] with the converter the parser uses for args/kwargs/iterables (literal_eval),
+    1 mutate the last converted container (as a pool method or worker may), 2 SUPPRESS passes through,
+    3 a constructor raising exception class a: ValueError/TypeError/ArgumentTypeError pass, others -> ArgumentTypeError."""
+    from argparse import SUPPRESS, ArgumentTypeError
+    from ast import literal_eval
+    from asyncio_taskpool.control.parser import _get_arg_type_wrapper, _get_type_from_annotation
+    from asyncio_taskpool.internals.types import ArgsT
+    w = World("c17.conv")
+    code = 0
+    try:
+        conv = _get_type_from_annotation(ArgsT)
+        last = None
+        nconv = 0
+        for x, a in ((x1, a1), (x2, a2), (x3, a3), (x4, a4)):
+            if x == 0:
+                text = None
+                for j in range(len(CONV_ARGS)):
+                    if a == j:
+                        text = CONV_ARGS[j]
+                if text is None:
+                    continue
+                w.op("convert", text)
+                got = conv(text)
+                nconv += 1
+                if got != literal_eval(text) or (isinstance(got, (list, dict)) and got is last):
+                    code = code or 1706
+                last = got
+            elif x == 1:
+                w.op("mutate")
+                if isinstance(last, list):
+                    last.append(9)
+                elif isinstance(last, dict):
+                    last["z"] = 9
+            elif x == 2:
+                w.op("suppress")
+                if conv(SUPPRESS) is not SUPPRESS:
+                    code = code or 1706
+            elif x == 3:
+                excs = (ValueError, TypeError, ArgumentTypeError, KeyError, RuntimeError)
+                cls_exc = None
+                for j in range(len(excs)):
+                    if a == j:
+                        cls_exc = excs[j]
+                if cls_exc is None:
+                    continue
+                w.op("raising", cls_exc.__name__)
+
+                def ctor(arg, e=cls_exc):
+                    raise e("boom")
+                ctor.__name__ = "ctor"
+                try:
+                    _get_arg_type_wrapper(ctor)("v")
+                    code = code or 1706
+                except Exception as e:  # noqa: BLE001
+                    want = cls_exc if cls_exc in (ValueError, TypeError, ArgumentTypeError) else ArgumentTypeError
+                    if type(e) is not want:
+                        code = code or 1706
+        if _twin and not code and nconv >= 2:
+            code = 77
+        return code
+    finally:
+        w.close(code)
+
+
 def families(tier):
     fams = []
     P = ["cls", "m", "k", "i1", "i2", "i3", "flag", "g", "n", "setv"]
@@ -198,4 +268,9 @@ def families(tier):
         fams.append(Family(name="cmd%d" % cls, fn="tpl_cmd", params=P, pre=pre, parts=parts,
                            twin_pre=["m == %d" % [i for i, (n_, _) in enumerate(MEMBERS[cls]) if n_ == "get_group_ids"][0], "k == 1", "g == 0"],
                            twin_args=[cls, [i for i, (n_, _) in enumerate(MEMBERS[cls]) if n_ == "get_group_ids"][0], 1, 0, 0, 0, 0, 0, 0, 0]))
+    fams.append(Family(name="conv", fn="tpl_conv", params=["x1", "a1", "x2", "a2", "x3", "a3", "x4", "a4"],
+                       pre=["0 <= x1 <= 3", "0 <= a1 <= 4", "0 <= x2 <= 3", "0 <= a2 <= 4", "0 <= x3 <= 3", "0 <= a3 <= 4",
+                            "0 <= x4 <= 3", "0 <= a4 <= 4"] + ([] if tier == "thorough" else ["x4 == 2", "a4 == 0"]),
+                       parts=parts_product(x1=range(4), x2=range(4)), twin_pre=["x1 == 0", "x2 == 1", "x3 == 0"],
+                       twin_args=[0, 0, 1, 0, 0, 0, 2, 0]))
     return fams
